@@ -1,6 +1,266 @@
-/- C07 — model not written yet (stub so that the driver target exists). -/
-namespace Nitime.C07
+/-
+C07 — model of the Slepian-taper machinery of `nitime.utils` (core Lean only).
 
-def handle (_args : List String) : String := "bad-op"
+* `tridisolve` (`nitime/_utils.pyx`, pure-Python fallback in `nitime/utils.py`): the four loops of
+  the source, statement by statement, over the three work vectors `dw, ew, x` (`Tridi.St`),
+  polymorphic in the scalar type (runs at `Float` and `Rat`; the theorems are about the same
+  definition at an arbitrary field).  `Generated/Tridi.lean` holds the two programs the
+  translator extracts from the current source; `Props/C07.generated_eq_model_*` ties them to
+  this definition.
+* `dpss_windows` post-processing: `fixSigns` (sign convention), `concentration`
+  (autocorrelation·N dotted with r), `interpRescale`, `lowBias` (tapered_spectra).
+* certificate evaluators used by the correspondence (`gram`, `sincResidual`, …) — evaluated in
+  the `Float` instance on the tapers the real code returned.
+-/
+import Nitime.Model.TridiBase
+import Nitime.Model.Proto
+
+namespace Nitime.C07
+open Nitime Nitime.Tridi
+
+variable {K : Type}
+
+section solver
+variable [Inhabited K] [Sub K] [Mul K] [Div K]
+
+/-- first loop: LDLᵀ factorisation in place (`ew[k-1]` becomes the multiplier, `dw[k]` the pivot) -/
+def elim (N : Nat) (s : St K) : St K :=
+  forUp 1 N s fun k s =>
+    let t := get s.ew (k - 1)
+    let s := { s with ew := set s.ew (k - 1) (t / get s.dw (k - 1)) }
+    let s := { s with dw := set s.dw k (get s.dw k - t * get s.ew (k - 1)) }
+    s
+
+/-- second loop: forward substitution -/
+def fwd (N : Nat) (s : St K) : St K :=
+  forUp 1 N s fun k s =>
+    let s := { s with x := set s.x k (get s.x k - get s.ew (k - 1) * get s.x (k - 1)) }
+    s
+
+/-- `x[N-1] = x[N-1] / dw[N-1]` -/
+def lastDiv (N : Nat) (s : St K) : St K :=
+  { s with x := set s.x (N - 1) (get s.x (N - 1) / get s.dw (N - 1)) }
+
+/-- third loop: back substitution, `k = N-2, …, 0` -/
+def bwd (N : Nat) (s : St K) : St K :=
+  forDown (N - 1) s fun k s =>
+    let s := { s with x := set s.x k (get s.x k / get s.dw k - get s.ew k * get s.x (k + 1)) }
+    s
+
+/-- `tridisolve(d, e, b)`: the solution vector (left in `b` when `overwrite_b`, else returned) -/
+def tridisolve (d e b : Array K) : Array K :=
+  let N := b.size
+  let s : St K := { dw := d, ew := e, x := b }
+  let s := elim N s
+  let s := fwd N s
+  let s := lastDiv N s
+  let s := bwd N s
+  s.x
+
+/-- the pivots the code divides by (`dw` after the first loop) -/
+def pivots (d e b : Array K) : Array K := (elim b.size { dw := d, ew := e, x := b }).dw
+
+end solver
+
+section mul
+variable [Inhabited K] [Add K] [Mul K]
+
+/-- row `i` of `A·x` for the symmetric tridiagonal `A` (main diagonal `d`, off-diagonal `e[:-1]`) -/
+def mulRow (d e x : Array K) (N i : Nat) : K :=
+  if N = 1 then get d 0 * get x 0
+  else if i = 0 then get d 0 * get x 0 + get e 0 * get x 1
+  else if i + 1 = N then get e (i - 1) * get x (i - 1) + get d i * get x i
+  else get e (i - 1) * get x (i - 1) + get d i * get x i + get e i * get x (i + 1)
+
+def tridiagMul (d e x : Array K) : Array K :=
+  Array.ofFn (n := x.size) fun i => mulRow d e x x.size i.val
+
+end mul
+
+/-! ### sign convention (`dpss_windows`, Percival & Walden p. 379) -/
+section signs
+variable [OfNat K 0] [Add K] [Neg K] [LT K] [DecidableLT K]
+
+def absK (x : K) : K := if x < 0 then -x else x
+
+/-- `np.argmax`: index of the FIRST maximum (0 for an empty vector) -/
+def argmaxFrom (i bi : Nat) (bv : K) : List K → Nat
+  | [] => bi
+  | x :: t => if bv < x then argmaxFrom (i + 1) (i + 1) x t else argmaxFrom (i + 1) bi bv t
+
+def argmax : List K → Nat
+  | [] => 0
+  | a :: t => argmaxFrom 0 0 a t
+
+def negRow (r : List K) : List K := r.map fun x => -x
+
+/-- symmetric tapers (k = 0, 2, …): positive average -/
+def fixEven (r : List K) : List K := if sumList r < 0 then negRow r else r
+
+/-- index of the first (largest) extremum within the first half -/
+def peak (N : Nat) (r : List K) : Nat := argmax ((r.take (N / 2)).map absK)
+
+/-- antisymmetric tapers (k = 1, 3, …): positive slope up to the first (largest) extremum of the
+first half, `np.sum(dpss[k, :pk]) < 0 → flip` -/
+def fixOdd (N : Nat) (r : List K) : List K :=
+  if sumList (r.take (peak N r)) < 0 then negRow r else r
+
+def fixRow (N i : Nat) (r : List K) : List K := if i % 2 = 0 then fixEven r else fixOdd N r
+
+def fixSigns (N : Nat) (rows : List (List K)) : List (List K) :=
+  rows.mapIdx fun i r => fixRow N i r
+
+end signs
+
+/-! ### concentration via the autocorrelation sequence (Percival & Walden p. 390) -/
+section conc
+variable [OfNat K 0] [Add K] [Mul K]
+
+/-- `autocorr(v)[k] * N = Σ_{n < N-k} v[n+k]·v[n]` -/
+def autocorrN (N : Nat) (v : Nat → K) (k : Nat) : K := sumN (N - k) fun n => v (n + k) * v n
+
+/-- `np.dot(dpss_rxx, r)` -/
+def quadAutocorr (N : Nat) (v r : Nat → K) : K := sumN N fun k => autocorrN N v k * r k
+
+def dot (N : Nat) (u v : Nat → K) : K := sumN N fun n => u n * v n
+
+def sumSq (l : List K) : K := sumList (l.map fun x => x * x)
+
+/-- `d_temp / s` -/
+def rescale [Div K] (s : K) (l : List K) : List K := l.map fun x => x / s
+
+end conc
+
+/-- `tapered_spectra(..., low_bias=True)`: keep the tapers whose concentration exceeds `thr` -/
+def lowBias [LT K] [DecidableLT K] (thr : K) (tapers : List (List K)) (eig : List K) :
+    List (List K) × List K :=
+  let kept := (tapers.zip eig).filter fun p => thr < p.2
+  (kept.map (·.1), kept.map (·.2))
+
+/-! ### binary64 instances -/
+
+def pi : Float := 3.141592653589793
+
+/-- `np.sinc` -/
+def npSinc (x : Float) : Float := if x == 0 then 1 else Float.sin (pi * x) / (pi * x)
+
+/-- `r = 4·W·sinc(2·W·k)`, `r[0] = 2·W` -/
+def rSeq (W : Float) (k : Nat) : Float := if k = 0 then 2 * W else 4 * W * npSinc (2 * W * k.toFloat)
+
+/-- the band-limiting kernel `S[m,n] = sin(2πW(m-n)) / (π(m-n))`, `S[n,n] = 2W`, as a function of |m-n| -/
+def sincKernel (W : Float) (k : Nat) : Float :=
+  if k = 0 then 2 * W else Float.sin (2 * pi * W * k.toFloat) / (pi * k.toFloat)
+
+def vecFn (l : List Float) : Nat → Float := let a := l.toArray; fun i => a.getD i 0
+
+/-- `eigvals[k]` of `dpss_windows` for one taper -/
+def concentration (N : Nat) (NW : Float) (row : List Float) : Float :=
+  quadAutocorr N (vecFn row) (rSeq (NW / N.toFloat))
+
+/-- `d_temp / np.sqrt(np.sum(d_temp ** 2))` -/
+def interpRescale (l : List Float) : List Float := rescale (Float.sqrt (sumSq l)) l
+
+/-- `interp1d(arange(M), src, 'linear')(np.linspace(0, M-1, N, endpoint=False))` -/
+def interpLinear (src : List Float) (N : Nat) : List Float :=
+  let a := src.toArray
+  let M := a.size
+  let step := (M - 1).toFloat / N.toFloat
+  (List.range N).map fun j =>
+    let pos := j.toFloat * step
+    let hi0 := (Float.ceil pos).toUInt64.toNat
+    let hi := if hi0 < 1 then 1 else if hi0 > M - 1 then M - 1 else hi0
+    let lo := hi - 1
+    let slope := (a.getD hi 0 - a.getD lo 0) / (hi.toFloat - lo.toFloat)
+    slope * (pos - lo.toFloat) + a.getD lo 0
+
+/-- the interpolation branch of `dpss_windows` for `interp_kind='linear'`, from the short tapers -/
+def interpBranch (N : Nat) (NW : Float) (short : List (List Float)) : List (List Float) × List Float :=
+  let rows := fixSigns N (short.map fun r => interpRescale (interpLinear r N))
+  (rows, rows.map (concentration N NW))
+
+/-! ### certificates (evaluated on what the real code returned) -/
+
+def fmax (a b : Float) : Float := if a < b then b else a
+
+/-- max |⟨v_i, v_j⟩ − δ_ij| -/
+def gramErr (N : Nat) (rows : List (List Float)) : Float :=
+  let fs := rows.map vecFn
+  let idx := List.range fs.length
+  (idx.zip fs).foldl (fun acc (i, u) =>
+    (idx.zip fs).foldl (fun acc (j, v) =>
+      fmax acc (Float.abs (dot N u v - (if i = j then 1 else 0)))) acc) 0
+
+/-- max_m |Σ_n S[m,n]·v[n] − λ·v[m]| -/
+def sincResidual (N : Nat) (W : Float) (row : List Float) (lam : Float) : Float :=
+  let v := vecFn row
+  let ker := ((List.range N).map (sincKernel W)).toArray
+  (List.range N).foldl (fun acc m =>
+    let sv := sumN N fun n => ker.getD (if m ≤ n then n - m else m - n) 0 * v n
+    fmax acc (Float.abs (sv - lam * v m))) 0
+
+def chunk (n : Nat) : Nat → List Float → List (List Float)
+  | 0, _ => []
+  | k + 1, l => l.take n :: chunk n k (l.drop n)
+
+def b2s (b : Bool) : String := if b then "1" else "0"
+
+-- ------------------------------------------------------------------ driver
+open Proto in
+def handle (args : List String) : String :=
+  match args with
+  | ["tridif", d, e, b] =>
+    match parseFloatList? d, parseFloatList? e, parseFloatList? b with
+    | some d, some e, some b =>
+      if b.length = 0 ∨ d.length < b.length ∨ e.length + 1 < b.length then "err shape" else
+      let x := tridisolve d.toArray e.toArray b.toArray
+      let p := pivots d.toArray e.toArray b.toArray
+      "ok " ++ showFloatList x.toList ++ " " ++ showFloatList p.toList ++ " "
+        ++ showFloatList (tridiagMul d.toArray e.toArray x).toList
+    | _, _, _ => "bad-args"
+  | ["tridiq", d, e, b] =>
+    match (splitList d).mapM parseRat?, (splitList e).mapM parseRat?, (splitList b).mapM parseRat? with
+    | some d, some e, some b =>
+      if b.length = 0 ∨ d.length < b.length ∨ e.length + 1 < b.length then "err shape" else
+      let p := pivots d.toArray e.toArray b.toArray
+      if (p.toList.take b.length).any (· == 0) then "err zero-pivot" else
+      let x := tridisolve d.toArray e.toArray b.toArray
+      "ok " ++ joinList (x.toList.map showRat) ++ " " ++ joinList (p.toList.map showRat) ++ " "
+        ++ joinList ((tridiagMul d.toArray e.toArray x).toList.map showRat)
+    | _, _, _ => "bad-args"
+  | ["fixsigns", n, k, flat] =>
+    match n.toNat?, k.toNat?, parseFloatList? flat with
+    | some n, some k, some flat =>
+      "ok " ++ showFloatList (fixSigns n (chunk n k flat)).flatten
+    | _, _, _ => "bad-args"
+  | ["conc", n, nw, row] =>
+    match n.toNat?, parseFloat? nw, parseFloatList? row with
+    | some n, some nw, some row => "ok " ++ showFloat (concentration n nw row)
+    | _, _, _ => "bad-args"
+  | ["interp", m, n, k, nw, flat] =>
+    match m.toNat?, n.toNat?, k.toNat?, parseFloat? nw, parseFloatList? flat with
+    | some m, some n, some k, some nw, some flat =>
+      let (rows, eig) := interpBranch n nw (chunk m k flat)
+      "ok " ++ showFloatList rows.flatten ++ " " ++ showFloatList eig
+    | _, _, _, _, _ => "bad-args"
+  | ["lowbias", eig] =>
+    match parseFloatList? eig with
+    | some eig =>
+      let (ts, es) := lowBias (0.9 : Float) (eig.map fun x => [x]) eig
+      "ok " ++ showFloatList ts.flatten ++ " " ++ showFloatList es
+    | _ => "bad-args"
+  | ["cert", n, nw, k, flat, eig] =>
+    match n.toNat?, parseFloat? nw, k.toNat?, parseFloatList? flat, parseFloatList? eig with
+    | some n, some nw, some k, some flat, some eig =>
+      let rows := chunk n k flat
+      let w := nw / n.toFloat
+      let res := (rows.zip eig).foldl (fun acc (r, l) => fmax acc (sincResidual n w r l)) (0 : Float)
+      let conc := (rows.zip eig).foldl (fun acc (r, l) => fmax acc (Float.abs (concentration n nw r - l))) (0 : Float)
+      let ordered := (eig.zip (eig.drop 1)).all fun (a, b) => b ≤ a + 1e-9
+      let inRange := eig.all fun l => 0 < l ∧ l < 1 + 1e-9
+      let signs := fixSigns n rows == rows
+      "ok " ++ showFloat (gramErr n rows) ++ " " ++ showFloat res ++ " " ++ showFloat conc ++ " "
+        ++ b2s ordered ++ " " ++ b2s inRange ++ " " ++ b2s signs
+    | _, _, _, _, _ => "bad-args"
+  | _ => "bad-op"
 
 end Nitime.C07
